@@ -57,3 +57,148 @@ def oracle(H):
 
 SWEEP = (6, 100)
 install(globals(), ID, 3000, 40000)
+_sim_run = run
+_sim_replay = replay
+
+
+# ----------------------------------------------------------------------------- REAL part: process trees
+def _alive(pid):
+    try:
+        with open(f"/proc/{pid}/stat") as fh:
+            return fh.read().split(")")[-1].split()[0] != "Z"
+    except OSError:
+        return False
+
+
+def real_case(prog, base):
+    import json
+    import os
+    import time
+    from real import runner
+    res, p = runner.run_driver("drv_c06.py", prog, base, timeout=240)
+    d = res["dir"]
+    pids = {}
+    try:
+        for f in os.listdir(d):
+            if f.startswith("pids_") and f.endswith(".json"):
+                r = json.load(open(os.path.join(d, f)))
+                pids[f] = r
+    except OSError:
+        pass
+    allp = set()
+    for r in pids.values():
+        allp.add(r["pid"])
+        allp.update(r.get("sub", []))
+        allp.update(r.get("nested", []))
+    # killed processes vanish quickly; orphans are reaped by init
+    t0 = time.time()
+    while time.time() - t0 < 8 and any(_alive(x) for x in allp):
+        time.sleep(0.05)
+    survivors = sorted(x for x in allp if _alive(x))
+    what = {}
+    for f, r in pids.items():
+        for x in [r["pid"]] + r.get("sub", []) + r.get("nested", []):
+            if x in survivors:
+                what[x] = ("worker" if x == r["pid"] and r["kind"] == "worker" else "nested_worker" if x == r["pid"] or x in r.get("nested", [])
+                           else "subprocess") + "@" + f
+    res = runner.finish(res, p)
+    res.update(survivors=survivors, survivor_kinds=what, n_pids=len(allp))
+    return res
+
+
+def real_oracle(prog, res):
+    v = []
+    main = [o for o in res["out"] if "workers" in o]
+    if res["timed_out"] and not main:
+        return [("forced_shutdown_hangs", f"driver watchdog expired during the forced shutdown; err={res['err'][-300:]}")]
+    if not main:
+        return [("driver_incomplete", f"rc={res['rc']} err={res['err'][-600:]}")]
+    m = main[0]
+    if m["end_markers"]:
+        v.append(("forced_shutdown_waited_for_tasks", f"tasks {m['end_markers']} ran to their end (60 s) before the call returned ({m['call_s']:.1f} s)"))
+    for i, (st, out, spec) in enumerate(zip(m["states_before"], m["outcomes"], prog["tasks"])):
+        if st == "FINISHED":
+            continue
+        if out[0] == "ShutdownExecutorError":
+            continue
+        if out[0] == "ret" and (out[1] == ["done", f"t{i}"] or out[1] == ["slept", f"t{i}"]):
+            continue           # resolved with its own value in the meantime
+        v.append(("unfinished_future_without_shutdown_error", f"task {i} ({spec}) was {st} at the call and ended with {out}"))
+    if res["survivors"]:
+        v.append(("process_survives_forced_shutdown", f"{len(res['survivors'])} of {res['n_pids']} recorded processes of the tree are still "
+                  f"alive after the call: {res['survivor_kinds']}"))
+    return v
+
+
+def real_shard(seed, n, tier="quick"):
+    import hypothesis
+    from hypothesis import given, settings, HealthCheck, Phase, strategies as st
+    from real import runner
+    from vlib.common import Acc, HarnessError
+
+    acc = Acc()
+    fails = []
+    base = runner.workdir("c06real")
+    phases = [Phase.generate] if tier == "quick" else [Phase.generate, Phase.shrink]
+    task = st.fixed_dictionaries({"subprocs": st.integers(0, 2), "nested": st.sampled_from([0, 0, 1, 2]),
+                                  "finish": st.sampled_from([False, False, False, True])})
+
+    @hypothesis.seed(seed)
+    @settings(max_examples=n, database=None, deadline=None, suppress_health_check=list(HealthCheck), report_multiple_bugs=False,
+              phases=phases)
+    @given(st.integers(1, 3), st.lists(task, min_size=1, max_size=5), st.booleans(), st.sampled_from(["shutdown", "shutdown", "reusable_kill"]),
+           st.sampled_from([0, 0.05, 0.3]))
+    def t(workers, tasks, psutil_, via, delay):
+        prog = {"workers": workers, "tasks": tasks, "psutil": psutil_, "via": via, "delay": delay}
+        res = real_case(prog, base)
+        case = {"engine": "real", "prog": prog}
+        v = real_oracle(prog, res)
+        if v and v[0][0] == "driver_incomplete":
+            raise HarnessError(f"C06 real driver incomplete: {v[0][1]} prog={prog}")
+        if not fails:
+            acc.case(case, any(x["subprocs"] or x["nested"] for x in tasks))
+            acc.count("real_cases")
+            acc.count("real_psutil:" + str(psutil_))
+            acc.count("real_via:" + via)
+            acc.count("real_recorded_pids", res["n_pids"])
+        if v:
+            fails.append({"kind": v[0][0], "detail": v[0][1], "case": case, "where": "real"})
+            raise AssertionError(v[0][0])
+
+    try:
+        t()
+    except BaseException:
+        if not fails:
+            raise
+    finally:
+        import shutil
+        shutil.rmtree(base, ignore_errors=True)
+    if fails:
+        acc.violations.append(fails[-1])
+    return acc
+
+
+def run(tier, seed):
+    from vlib import common
+    from vlib.shards import run_jobs
+    acc = _sim_run(tier, seed)
+    nr = 48 if tier == "quick" else 640
+    a2, not_run = run_jobs([{"module": "props.c06", "func": "real_shard",
+                             "kwargs": {"seed": common.derive_seed(seed, ID, "real", i), "n": nr // 16, "tier": tier}} for i in range(16)],
+                           tag="c06real", timeout_s=1500 if tier == "quick" else 7200)
+    acc.merge(a2, sample_cap=10)
+    return acc
+
+
+def replay(case, verbose=False):
+    if case.get("engine") == "real":
+        from real import runner
+        import shutil
+        base = runner.workdir("c06replay")
+        res = real_case(case["prog"], base)
+        if verbose:
+            print(res["out"], res["survivor_kinds"], res["err"][-400:])
+        v = real_oracle(case["prog"], res)
+        shutil.rmtree(base, ignore_errors=True)
+        return [{"kind": k, "detail": d, "case": case} for k, d in v]
+    return _sim_replay(case, verbose)
